@@ -8,10 +8,11 @@ namespace Furax
 namespace ListSem
 open Op
 
-/-- structural well-formedness: every composition is a non-empty chain with matching adjacent structures, every
+/- structural well-formedness (every composition is a non-empty chain with matching adjacent structures, every
 container is non-empty and its operands fit together, lazy inverses wrap square operands — what the constructors
-guarantee whatever the leaves are -/
-def StructOK (o : Op) : Prop := WTExpr (fun _ => True) (fun _ _ => True) o
+guarantee whatever the leaves are) is `Furax.StructOK` (FuraxProofs/Lemmas/WellFormed.lean), the guard of the laws
+`honest` / `homogeneous` of `Sem` / `OpSem` / `AdjCore`; `ListSem.StructOK` is an alias of it. -/
+export Furax (StructOK)
 
 /-- every structurally well-formed operator returns a vector of its declared output size, whatever the input -/
 def LenLaw (E : Env) : Prop :=
